@@ -25,6 +25,7 @@ def run(F, R, ctx):
     _run(F, R, ctx)
     if "sync" in (F.meta.get("features") or []):
         world_lock_rule(F, R)
+        parked_published_rule(F, R)
 
 
 def _run(F, R, ctx):
@@ -157,3 +158,29 @@ def _field_ty(F, adt_short, field):
             if f["name"] == field:
                 return f["ty"]
     return None
+
+
+def parked_published_rule(F, R):
+    R.rule("C16.e", "a thread that parks at the instruction-boundary poll is visible to a stop-the-world coordinator: in "
+                    "VmCore::safepoint_or_interrupt every call of park_thread_while_paused is dominated by a store into "
+                    "Synchronizer.ctx (publishing the thread) and followed by another one (retracting it) — sibling agreement "
+                    "between the PausedAtSafepoint and the Suspended arm; a thread parked unpublished is waited for forever by "
+                    "the next global definition, assignment or collection on another thread")
+    fn = F.one(r"^steel::steel_vm::vm::\{impl VmCore\}::safepoint_or_interrupt$")
+    parks = fn.call_blocks(r"\{impl VmCore\}::park_thread_while_paused$")
+    if not parks:
+        raise CheckError("anchor lost: safepoint_or_interrupt no longer parks through park_thread_while_paused")
+    stores = [i for i, b in fn.calls() if re.search(r"AtomicCell<T>\}::store$", b["callee"]) and b["targs"] and
+              "SteelThread" in b["targs"][0]]
+    dom = fn.dominators()
+    for k, p in enumerate(sorted(parks)):
+        before = [s_ for s_ in stores if s_ in dom[p] and p in fn.reachable_from(fn.succ(s_))]
+        # published in this arm: the nearest ThreadState switch target dominating the park also dominates the store
+        sws = [sb for sb in lib.enum_switches(fn, "ThreadState") if sb in dom[p]]
+        in_arm = [s_ for s_ in before if any(sb in dom[s_] for sb in sws)] if sws else before
+        after = [s_ for s_ in stores if s_ in fn.reachable_from(fn.succ(p))]
+        R.inst("C16.e", "safepoint_or_interrupt / park #%d happens published" % k, bool(in_arm) and bool(after),
+               "VmCore::safepoint_or_interrupt parks the thread (line %s) without publishing it in Synchronizer.ctx first: a "
+               "thread suspended with thread-suspend is never seen at a safepoint, so (define …) / (set! …) / a collection "
+               "on any other thread hangs" % fn.blocks[p].get("line"), fn.loc(fn.blocks[p].get("line")), sample=True)
+    R.floor("C16.e", "parking sites in the poll", len(parks), 2)
